@@ -169,7 +169,9 @@ def lock_scenarios(cfg):
     return [("sync", [("write", "d1", "new", 1200, 0)], ("sync",)),
             ("scrub", [], ("scrub", "-p", "full")),
             ("fix", [("emptydisk", "d2")], ("fix",)),
-            ("touch", [("write", "d1", "t0", 300, 0, 0), ("cmd", "sync")], ("touch",))]
+            ("touch", [("write", "d1", "t0", 300, 0, 0), ("cmd", "sync")], ("touch",)),
+            ("rehash", [], ("rehash",)),
+            ("sync-F", [], ("sync", "-F"))]
 
 
 def lock_job(j):
